@@ -1,2 +1,7 @@
 (* C03 — placeholder, theorems follow *)
-From Bac Require Import Base Tag Schema Codec CodecFacts SchemaTables.
+From Bac Require Import Base.
+From Bac Require Import Tag.
+From Bac Require Import Schema.
+From Bac Require Import Codec.
+From Bac Require Import CodecFacts.
+From Bac Require Import SchemaTables.
